@@ -514,14 +514,18 @@ class CFG:
             val._trim_cache[bottomup_only] = val
             return val
 
-        T = {self.S}
+        # top-down pass: follow only rules all of whose symbols are generating,
+        # so that every symbol kept is reachable through rules that survive.
+        T = {self.S} if self.S in C else set()
         agenda.update(T)
         while agenda:
             x = agenda.pop()
             for e in incoming[x]:
                 # assert e.head in T
+                if not all((b in C) for b in e.body):
+                    continue
                 for b in e.body:
-                    if b not in T and b in C:
+                    if b not in T:
                         T.add(b)
                         agenda.add(b)
 
